@@ -481,7 +481,34 @@ fn pipeline_dev(ops: &[gen::Op], start_mode: HandleControl, oracle: Oracle) -> R
 
 fn pipeline_layer(run: &mut Run, oracle: Oracle) {
     use rayon::prelude::*;
-    let (fam, g4a) = crate::checks::kbd::deep_ops::<ScancodeSet2>();
+    let (mut fam, g4a) = crate::checks::kbd::deep_ops::<ScancodeSet2>();
+    // every modifier record (reached by its witness history of key events), then one operation
+    // that decodes no key event - clear(), a rejected word, a lone prefix byte / word, a stray
+    // bit, a mode change - then an ordinary press: the record must survive the operation
+    let before = fam.len();
+    {
+        use crate::model::frame::encode;
+        use gen::Op;
+        let probes: Vec<Vec<Op>> = vec![
+            vec![Op::Clear],
+            vec![Op::Word(encode(0x1C) ^ 0x200)],
+            vec![Op::Word(0x7FF)],
+            vec![Op::Byte(0xE0), Op::Clear],
+            vec![Op::Word(encode(0xF0)), Op::Clear],
+            vec![Op::Bit(false), Op::Bit(true), Op::Clear],
+            vec![Op::SetCtrl(HandleControl::Ignore), Op::SetCtrl(HandleControl::MapLettersToUnicode)],
+        ];
+        for bits in 0..N_MODS {
+            let w: Vec<Op> = mm::witness_history(bits).into_iter().map(|(k, s)| Op::Event(k, s)).collect();
+            for p in &probes {
+                let mut v = w.clone();
+                v.extend(p.iter().cloned());
+                v.push(Op::Event(KeyCode::A, KeyState::Down));
+                fam.push(v);
+            }
+        }
+    }
+    let nonevent = fam.len() - before;
     let mode = HandleControl::MapLettersToUnicode;
     let bad: Vec<usize> = fam.par_iter().enumerate().filter_map(|(i, v)| match pipeline_dev(v, mode, oracle) { Ok(None) => None, _ => Some(i) }).collect();
     run.eval(fam.len() as u64);
@@ -502,7 +529,7 @@ fn pipeline_layer(run: &mut Run, oracle: Oracle) {
         }
     }
     run.total_violating_cases += bad.len().saturating_sub(6) as u64;
-    run.part("keyboard_pipeline_layer", json!({"S.A^i.B^j.T sequences": g4a, "noisy_line_workloads": fam.len() - g4a, "failing": bad.len()}));
+    run.part("keyboard_pipeline_layer", json!({"S.A^i.B^j.T sequences": g4a, "noisy_line_workloads": fam.len() - g4a - nonevent, "every modifier record x operation without a key event (clear, rejected word, lone prefix + clear, stray bits + clear, mode change) x press": nonevent, "failing": bad.len()}));
 }
 
 fn witness(bits: u16) -> Vec<FlatEv> {
